@@ -4,6 +4,7 @@ import Driver.Sql
 import Driver.SqlDb
 import Driver.Budget
 import Driver.PageLocks
+import Driver.KeyEnc
 
 def main (args : List String) : IO UInt32 := do
   let stdin ← IO.getStdin
@@ -15,4 +16,5 @@ def main (args : List String) : IO UInt32 := do
   | ["budget"] => Driver.loop stdin stdout (TurVerif.Budget.init 0 []) Driver.Budget.step; return 0
   | ["sqldb"] => Driver.loop stdin stdout ({} : TurVerif.SqlDb.DbState) Driver.SqlDb.step; return 0
   | ["sql"] => Driver.loop stdin stdout ([] : TurVerif.Sql.Db) Driver.Sql.step; return 0
+  | ["key"] => Driver.loop stdin stdout () Driver.KeyEnc.step; return 0
   | _ => IO.eprintln "usage: tvmodel <family>"; return 2
